@@ -560,7 +560,28 @@ func genRobust(r *repo) string {
 		if !strings.Contains(capTxt, "p.chPartTrackProcessed = make(chan struct{}, clientMaxTracksPerStream)") {
 			fatalf("clientStreamProcessorFMP4.initialize: completion channel capacity is no longer clientMaxTracksPerStream: %s", capTxt)
 		}
+		// repair of F15: inside `if leadingPartTrack == nil { … }`, before the error, a segment without any sample is skipped —
+		// for every stream (`if partsAreEmpty(parts)`) or for renditions only (`if !p.isLeading && partsAreEmpty(parts)`)
+		skipAll := g["partsAreEmpty(parts)"] == "return-nil"
+		skipRend := g["!p.isLeading && partsAreEmpty(parts)"] == "return-nil"
+		if skipAll || skipRend {
+			if !strings.Contains(txt, "if leadingPartTrack == nil { if ") || !strings.Contains(txt, "partsAreEmpty(parts) { return nil } return fmt.Errorf(") {
+				fatalf("clientStreamProcessorFMP4.processSegment: the empty-segment skip is not the first statement under `leadingPartTrack == nil`")
+			}
+			pe := p.funcDecl("", "partsAreEmpty")
+			want := "{ for _, part := range parts { for _, partTrack := range part.Tracks { if len(partTrack.Samples) != 0 { return false } } } return true }"
+			if pe == nil || rbExpr(fset, pe.Body) != want {
+				fatalf("partsAreEmpty: missing or not `no part-track has a sample`")
+			}
+		}
 		fmt.Fprintf(&b, "/-- `processSegment` returns an error when no part-track of the leading track is found -/\ndef fmp4GuardNoLeadingData : Bool := %v\n", lead)
+		fmt.Fprintf(&b, "/-- … except that a segment / part in which no part-track has a sample is skipped (repair of F15) -/\ndef fmp4SkipsEmptySegments : Bool := %v\n", skipAll || skipRend)
+		fmt.Fprintf(&b, "/-- … also on the leading stream (false: renditions only) -/\ndef fmp4SkipsEmptyLeadingToo : Bool := %v\n", skipAll)
+		// … and then a leading stream that reaches its end without ever having created its track processors (= the time
+		// origin the other streams wait for) must end with an error instead of `setEnded()`
+		endGuard := g["p.isLeading && p.trackProcessors == nil"] == "return-error" &&
+			strings.Contains(txt, "if seg == nil { if p.isLeading && p.trackProcessors == nil { return fmt.Errorf(")
+		fmt.Fprintf(&b, "/-- at the end of the stream (`seg == nil`) a leading stream without track processors returns an error -/\ndef fmp4LeadingEndNeedsOrigin : Bool := %v\n", endGuard)
 		fmt.Fprintf(&b, "/-- `processSegment` returns the error of `parts.Unmarshal` -/\ndef fmp4ReturnsPartsDecodeError : Bool := %v\n", dec)
 		fmt.Fprintf(&b, "/-- part-tracks with an id that has no processor are skipped (`if !ok { continue }`) -/\ndef fmp4SkipsUnknownPartTracks : Bool := %v\n", unk)
 		fmt.Fprintf(&b, "/-- the completion channel is re-made per segment with one slot per part-track (repair of F17); otherwise its capacity is clientMaxTracksPerStream -/\ndef fmp4CompletionChanPerSegment : Bool := %v\n", perSeg)
@@ -755,6 +776,9 @@ func genRobust(r *repo) string {
 	b.WriteString("/-- SHA-256 prefixes of the comment-free, white-space-normalised source of the functions whose control flow\n    `Hls.Robust.Model` mirrors (the classified facts above cover the guards; the pins cover everything else). -/\n")
 	b.WriteString("def pins : List (String × String) := [\n")
 	var txts []string
+	if p.funcDecl("", "partsAreEmpty") != nil {
+		pinList = append(pinList, pin{"", "partsAreEmpty"}) // exists only with the repair of F15
+	}
 	for i, pn := range pinList {
 		fd := p.mustFunc(pn.recv, pn.name)
 		h, txt := rbPin(fset, funcNoDoc(fd))
